@@ -22,7 +22,8 @@ LEVEL_TEXT = ('Every skeleton program over labels (alone / attached), auto-sized
               '(digest repeat = proven livelock), every reference in the code file must decode to the address its label really has, and a forced '
               'extra pass must reproduce code file and symbol digest. The whole golden corpus is run with one forced extra pass.'
               ' The same skeletons with one ORG to a lower address (a later-defined label below its reference, incl. PC-relative LEA) and every program over one name defined before / inside / behind a SECTION, declared FORWARD/PUBLIC/GLOBAL or not, referenced before and after its local definition (jump, data word, absolute operand, short branch across a gap) are run with 0, 1 and 2 forced extra passes.'
-              ' Label spellings `name EQU <pc>` and references `name+0`, and body-local labels that hide an outer label of the same name, are part of the skeleton and body-label sub-spaces.')
+              ' Label spellings `name EQU <pc>` and references `name+0`, and body-local labels that hide an outer label of the same name, are part of the skeleton and body-label sub-spaces.'
+              ' The scoped programs with a local and an outer definition are repeated with the section nested two and three levels deep.')
 LEVEL_NOTE = ('Trusted: per-target mini decoders (finite encoding sets typed from the ISA manuals), hook trace. Hooks H1/H2 are guarded by '
               'FLAMEWING_ASL_RELEASES_VERIF. Not covered: macros/conditionals on forward symbols, targets other than the four listed.')
 RULE = 'skeleton programs enumerated canonically (labels numbered in order of definition, no adjacent gaps); non-trivial = at least one forward reference'
